@@ -453,7 +453,11 @@ func runProp(cfg runConfig) int {
 		return h.Sum64()
 	}
 	var batch []Case
+	onlyKind := os.Getenv("VERIF_ONLYKIND") // restrict the run to one generator bucket (used by ./check after a harness crash)
 	add := func(c Case) {
+		if onlyKind != "" && !strings.HasPrefix(c.Kind, onlyKind) {
+			return
+		}
 		h := hashOf(c.Line)
 		if _, dup := seen[h]; dup {
 			return
